@@ -93,6 +93,18 @@ impl<'a> VerifyOpts<'a> {
     }
 }
 
+/// What one aggregator believes about the task (lets a caller model mismatches between parties).
+pub struct AggEnv<'a, V, const S: usize> {
+    pub vdaf: &'a V,
+    pub verify_key: [u8; S],
+    pub ctx: Vec<u8>,
+    pub nonce: [u8; 16],
+    /// identifier this aggregator runs under
+    pub agg_id: usize,
+    /// index of the input share handed to it
+    pub share_index: usize,
+}
+
 /// Run verification of one report among all aggregators (any number of rounds).
 /// Returns the output shares (in aggregator order) and the transcript.
 #[allow(clippy::too_many_arguments)]
@@ -110,8 +122,27 @@ where
     V: Aggregator<S, 16>,
     V::VerifyState: Encode + for<'a> ParameterizedDecode<(&'a V, usize)>,
 {
+    let envs: Vec<AggEnv<V, S>> = (0..input_shares.len())
+        .map(|i| AggEnv { vdaf, verify_key: *verify_key, ctx: ctx.to_vec(), nonce: *nonce, agg_id: i, share_index: i })
+        .collect();
+    verify_report_ex(&envs, agg_param, public_share, input_shares, opts)
+}
+
+/// As [`verify_report`], with per-aggregator beliefs. Every aggregator combines the broadcast
+/// verifier shares itself (with its own ctx) and then runs `verify_next` on its own state.
+pub fn verify_report_ex<V, const S: usize>(
+    envs: &[AggEnv<V, S>],
+    agg_param: &V::AggregationParam,
+    public_share: &V::PublicShare,
+    input_shares: &[V::InputShare],
+    opts: &VerifyOpts,
+) -> Result<(Vec<V::OutputShare>, Transcript), Failure>
+where
+    V: Aggregator<S, 16>,
+    V::VerifyState: Encode + for<'a> ParameterizedDecode<(&'a V, usize)>,
+{
     let mut tr = Transcript::default();
-    let n = input_shares.len();
+    let n = envs.len();
     let tam = |kind: &str, round: usize, agg: usize, bytes: Vec<u8>| -> Vec<u8> {
         if let Some(t) = &opts.tamper {
             if let Some(r) = t(kind, round, agg, &bytes) {
@@ -129,18 +160,19 @@ where
     }
     let ps_bytes = tam("public_share", 0, 0, ps_bytes);
     tr.public_share = ps_bytes.clone();
-    let ps = if opts.wire || opts.tamper.is_some() {
-        match V::PublicShare::get_decoded_with_param(vdaf, &ps_bytes) {
-            Ok(p) => p,
-            Err(e) => return fail(Stage::DecodePublicShare, e),
-        }
-    } else {
-        public_share.clone()
-    };
     // input shares + init
     let mut states: Vec<V::VerifyState> = vec![];
     let mut shares: Vec<V::VerifierShare> = vec![];
-    for (i, is) in input_shares.iter().enumerate() {
+    for (i, env) in envs.iter().enumerate() {
+        let ps = if opts.wire || opts.tamper.is_some() {
+            match V::PublicShare::get_decoded_with_param(env.vdaf, &ps_bytes) {
+                Ok(p) => p,
+                Err(e) => return fail(Stage::DecodePublicShare, e),
+            }
+        } else {
+            public_share.clone()
+        };
+        let is = &input_shares[env.share_index];
         let b = is.get_encoded().map_err(|e| Failure { stage: Stage::DecodeInputShare(i), msg: e.to_string() })?;
         if let Some(l) = is.encoded_len() {
             if l != b.len() {
@@ -150,14 +182,14 @@ where
         let b = tam("input_share", 0, i, b);
         tr.input_shares.push(b.clone());
         let is2 = if opts.wire || opts.tamper.is_some() {
-            match V::InputShare::get_decoded_with_param(&(vdaf, i), &b) {
+            match V::InputShare::get_decoded_with_param(&(env.vdaf, env.agg_id), &b) {
                 Ok(x) => x,
                 Err(e) => return fail(Stage::DecodeInputShare(i), e),
             }
         } else {
             is.clone()
         };
-        match crate::engine::catch(|| vdaf.verify_init(verify_key, ctx, i, agg_param, nonce, &ps, &is2)) {
+        match crate::engine::catch(|| env.vdaf.verify_init(&env.verify_key, &env.ctx, env.agg_id, agg_param, &env.nonce, &ps, &is2)) {
             Ok(Ok((st, sh))) => {
                 states.push(st);
                 shares.push(sh);
@@ -175,7 +207,7 @@ where
         tr.verifier_shares.push(vec![]);
         for i in 0..n {
             let st = if opts.wire {
-                let s = through_wire(&states[i], &(vdaf, i), Stage::CodecVerifyState(round, i))?;
+                let s = through_wire(&states[i], &(envs[i].vdaf, envs[i].agg_id), Stage::CodecVerifyState(round, i))?;
                 if s != states[i] {
                     return fail(Stage::CodecVerifyState(round, i), "decoded verify state != original");
                 }
@@ -214,23 +246,37 @@ where
                 }
             }
         }
-        let msg = match crate::engine::catch(|| vdaf.verifier_shares_to_message(ctx, agg_param, sh2)) {
-            Ok(Ok(m)) => m,
-            Ok(Err(e)) => return fail(Stage::SharesToMessage(round), e),
-            Err(m) => return fail(Stage::Panic(format!("verifier_shares_to_message[{round}]")), m),
-        };
-        let mb = msg.get_encoded().map_err(|e| Failure { stage: Stage::CodecVerifierMessage(round, 0), msg: e.to_string() })?;
-        if let Some(l) = msg.encoded_len() {
-            if l != mb.len() {
-                return fail(Stage::CodecVerifierMessage(round, 0), format!("encoded_len()={} but {} bytes produced", l, mb.len()));
-            }
-        }
-        let mb = tam("verifier_message", round, 0, mb);
-        tr.verifier_messages.push(mb.clone());
+        tr.verifier_messages.push(vec![]);
         let mut next_states = vec![];
         let mut next_shares = vec![];
         let mut outs = vec![];
+        // when all aggregators share the same beliefs the combined message is computed once
+        let uniform = envs.iter().all(|e| std::ptr::eq(e.vdaf, envs[0].vdaf) && e.ctx == envs[0].ctx);
+        let mut shared_msg: Option<V::VerifierMessage> = None;
         for (i, st) in st2.into_iter().enumerate() {
+            let env = &envs[i];
+            let msg = if let (true, Some(m)) = (uniform, &shared_msg) {
+                m.clone()
+            } else {
+                match crate::engine::catch(|| env.vdaf.verifier_shares_to_message(&env.ctx, agg_param, sh2.clone())) {
+                    Ok(Ok(m)) => m,
+                    Ok(Err(e)) => return fail(Stage::SharesToMessage(round), e),
+                    Err(m) => return fail(Stage::Panic(format!("verifier_shares_to_message[{round}]")), m),
+                }
+            };
+            if uniform && shared_msg.is_none() {
+                shared_msg = Some(msg.clone());
+            }
+            let mb = msg.get_encoded().map_err(|e| Failure { stage: Stage::CodecVerifierMessage(round, i), msg: e.to_string() })?;
+            if let Some(l) = msg.encoded_len() {
+                if l != mb.len() {
+                    return fail(Stage::CodecVerifierMessage(round, i), format!("encoded_len()={} but {} bytes produced", l, mb.len()));
+                }
+            }
+            let mb = tam("verifier_message", round, i, mb);
+            if i == 0 {
+                tr.verifier_messages[round] = mb.clone();
+            }
             let m = if opts.wire || opts.tamper.is_some() {
                 match V::VerifierMessage::get_decoded_with_param(&st, &mb) {
                     Ok(x) => x,
@@ -239,7 +285,7 @@ where
             } else {
                 msg.clone()
             };
-            match crate::engine::catch(|| vdaf.verify_next(ctx, st, m)) {
+            match crate::engine::catch(|| env.vdaf.verify_next(&env.ctx, st, m)) {
                 Ok(Ok(VerifyTransition::Continue(s, sh))) => {
                     next_states.push(s);
                     next_shares.push(sh);
@@ -256,7 +302,7 @@ where
             let mut outs2 = vec![];
             for (i, o) in outs.into_iter().enumerate() {
                 let o = if opts.wire {
-                    through_wire(&o, &(vdaf, agg_param), Stage::CodecOutputShare(i))?
+                    through_wire(&o, &(envs[i].vdaf, agg_param), Stage::CodecOutputShare(i))?
                 } else {
                     o
                 };
